@@ -33,21 +33,55 @@ ROUND1 = {
          "right_confidence_measure.tif written with the left image's crs/transform", "validation + georeferenced inputs whose left/right transforms differ"),
  "C20": ("/tmp/out-C20", ["C20"], "", "global margins compare each non-cumulative margin with the cumulative sum instead of the running maximum", "two filters, the larger one not last"),
 }
+ROUND2 = {
+ "C01": ("/tmp/out2-C01", ["C01"], "C01 histories now start with a check on the machine (documented usage) instead of re-checking before a run, and half of them use suffixed step names (validation.N only)",
+         "run_exit also resets right_disp_map", "suffixed-only validation step + check, run, run on the same machine"),
+ "C02": ("/tmp/out2-C02", ["C02", "C09"], "gen.grids gained the 'float' kind (bounds that are not multiples of 1/subpix), used by C02 and C09",
+         "cv_masked turns the per-pixel bounds into plane indexes by truncation (lower bound needs a ceil)", "per-pixel float bounds that are not multiples of 1/subpix, above the global minimum"),
+ "C03": ("/tmp/out2-C03", ["C03"], "C03 synthetic volumes now include 257-321 disparity samples",
+         "argmin_split stores the winning index in a uint8 buffer", "min-type measure + more than 256 disparity samples + best at index >= 256"),
+ "C04": ("/tmp/out2-C04", ["C04"], "", "validity_mask drops the window offset from the 'interval entirely outside' test (positive intervals)", "strictly positive interval + window >= 3 + a mask on the right image"),
+ "C05": ("/tmp/out2-C05", ["C05"], "", "census check_conf drops the int type guard on window_size", "census + window_size 3.0 / 5.0 (float equal to an allowed int)"),
+ "C06": ("/tmp/out2-C06", ["C06"], "", "loop_refinement tests the accumulated mask (bit 3 inherited from an earlier step) instead of this call's flag", "refinement -> median -> refinement, pixel carrying bit 3 that lands on a refinable sample"),
+ "C07": ("/tmp/out2-C07", ["C07"], "", "cross-check skips a row when no valid pixel has its correspondent inside the right image", "a row whose valid pixels all point outside the right image"),
+ "C08": ("/tmp/out2-C08", ["C08"], "C08 pipelines now end with a multiscale step in 30 % of the cases, with interval bounds that are not multiples of the zoom",
+         "run_prepare downscales the interval with floor division", "multiscale + validation + interval bound not a multiple of scale_factor^num_scales"),
+ "C09": ("/tmp/out2-C09", ["C06"], "same change as C06-1 (vfit stop test with min()); caught by C06, C09's own end-to-end clause needs zncc + filter + vfit which the quick tier rarely draws",
+         "vfit stop test rewritten with min(): wrong for max-type measures", "zncc + filter before vfit refinement"),
+ "C10": ("/tmp/out2-C10", ["C10"], "C10 applies regularising median_for_intervals on masks that already carry bit 11, and twice in a row",
+         "median_for_intervals raises bit 11 with += instead of |=", "regularization true + pixel already carrying bit 11"),
+ "C11": ("/tmp/out2-C11", ["C11"], "", "cbca computes the shifted right mask only for the first shift", "subpix 4 + right mask + planes with fractional part 0.5 / 0.75"),
+ "C12": ("/tmp/out2-C12", ["C12"], "C12 pipelines now regularise interval_bounds steps placed after an ambiguity step (kernel sizes 1/3/5)",
+         "interval_regularization works on the caller's ambiguity array when the kernel size is 1 and overwrites its last column", "ambiguity step then interval_bounds with regularization true and ambiguity_kernel_size 1"),
+ "C13": ("/tmp/out2-C13", ["C13", "C04"], "", "validity_mask compares column coordinates with an index (positive intervals)", "strictly positive interval + dataset whose column coordinates do not start at 0"),
+ "C14": ("/tmp/out2-C14", ["C14"], "", "mc-cnn mismatch filling keeps a 'valid found' flag per row instead of per pixel", "mc-cnn + unfillable mismatch preceded on its row by a fillable one"),
+ "C15": ("/tmp/out2-C15", ["C15"], "C15 now draws window_size 1 as well",
+         "disparity_range resets the border slices [-offset:] which select the whole array when offset is 0", "multiscale + matching-cost window_size 1"),
+ "C16": ("/tmp/out2-C16", ["C16"], "", "multiband ROI read builds the col coordinate from the row offset", "multiband image + ROI whose row offset differs from its column offset"),
+ "C17": ("/tmp/out2-C17", ["C17"], "C17 gained histories of checks on the same file paths rewritten in between",
+         "check_images reads image headers through an lru_cache keyed by path", "same path checked, rewritten with another size, checked again in one process"),
+ "C18": ("/tmp/out2-C18", ["C18"], "C18 cases use bilateral filters with different sigma_space but equal window width, and three of the worker processes run the cases in other orders",
+         "bilateral spatial kernel cached at class level under the window width only", "two bilateral pipelines in one process with different sigma_space and the same window width"),
+ "C19": ("/tmp/out2-C19", ["C19"], "", "cost_volume_confidence_run appends the step suffix to the indicator already stored in the configuration", "suffixed confidence step + the saved configuration fed back"),
+ "C20": ("/tmp/out2-C20", ["C20"], "C20 draws regularization / vertical_depth for median_for_intervals filters",
+         "median_for_intervals margins become max(filter_size, vertical_depth) with regularization", "median_for_intervals + regularization true + vertical_depth > filter_size"),
+}
 def main():
     table = json.load(open(sys.argv[1])) if len(sys.argv) > 1 else None
-    for pid, (src, caught, strengthened, what, needs) in ROUND1.items():
-        name = f"{pid}-1"
+    items = [(pid, 1, v) for pid, v in ROUND1.items()] + [(pid, 2, v) for pid, v in ROUND2.items()]
+    for pid, rnd, (src, caught, strengthened, what, needs) in items:
+        name = f"{pid}-{rnd}"
         dst = os.path.join(V, "seeded", name)
         os.makedirs(dst, exist_ok=True)
         for f in ("patch.diff", "demo.py", "notes.md"):
             if os.path.exists(os.path.join(src, f)):
                 shutil.copy(os.path.join(src, f), os.path.join(dst, f))
         ver = {}
-        vf = f"/verif/.work/seed_verify/{pid}.json"
+        vf = f"/verif/.work/seed_verify/{name}.json"
         if os.path.exists(vf):
             ver = json.load(open(vf))
         meta = {
-            "property": pid, "name": name, "origin": "independent sub-agent given only the property text and a scratch worktree",
+            "property": pid, "name": name, "origin": "independent sub-agent given only the property text and a scratch worktree" + (" (second round: also shown the first-round patch, to avoid repeating it)" if rnd == 2 else ""),
             "change": what, "needs_to_manifest": needs,
             "confirmed_by_me": {
                 "patch_applies_to_repo_HEAD": ver.get("patch_applies_to_HEAD"),
@@ -61,5 +95,5 @@ def main():
             "check_strengthened_because_of_it": strengthened or None,
         }
         json.dump(meta, open(os.path.join(dst, "meta.json"), "w"), indent=1)
-    print("collected", len(ROUND1))
+    print("collected", len(items))
 main()
